@@ -125,7 +125,7 @@ PROPS['C12'] = {
 }
 
 PROPS['C18'] = {
-    'units': ['parsers'],
+    'units': ['parsers', 'tokens', 'tokentree'],
     'functions': ['infix.rs::check_infix', 'infix.rs::check_arithmetic_infix', 's_linked_list.rs::equal_escape',
                   'parse_terms.rs::check_quotes', 'parse_terms.rs::parse_arguments', 'parse_terms.rs::make_term', 'parse_terms.rs::parse_term',
                   'parse_goals.rs::indices_of_parentheses', 'parse_goals.rs::split_complex_term', 'parse_goals.rs::get_left_and_right',
@@ -133,12 +133,21 @@ PROPS['C18'] = {
                   's_complex.rs::validate_complex', 's_complex.rs::parse_functor_terms', 's_complex.rs::parse_complex', 's_complex.rs::parse_query',
                   'built_in_functions.rs::parse_function', 'rule.rs::index_of_neck', 'rule.rs::parse_rule',
                   's_linked_list.rs::parse_linked_list', 's_linked_list.rs::link_front', 'logic_var.rs::make_logic_var', 'logic_var.rs::mlv_error',
+                  'tokenizer.rs::tokenize', 'tokenizer.rs::group_tokens', 'tokenizer.rs::group_and_tokens', 'tokenizer.rs::group_or_tokens',
+                  'tokenizer.rs::token_tree_to_goal', 'tokenizer.rs::generate_goal', 'tokenizer.rs::no_esc', 'tokenizer.rs::letter_number_hyphen',
+                  'tokenizer.rs::invalid_between_terms', 'tokenizer.rs::tttg_error', 'parse_stack.rs::peek', 'parse_stack.rs::pop',
+                  'token.rs::make_leaf_token', 'token.rs::make_branch_token', 'token.rs::Token::number_of_children', 'token.rs::Token::get_type',
+                  'token.rs::Token::get_token_str', 'token.rs::Token::get_children',
                   'parse_terms.rs::cq_error', 'parse_terms.rs::mt_error', 's_linked_list.rs::pll_error', 'parse_goals.rs::iop_error', 'rule.rs::pr_error'],
     'oracles': {'rule.rs::parse_rule': 'c18_parsers:parse_rule', 's_complex.rs::parse_query': 'c18_parsers:parse_query',
                 'parse_terms.rs::parse_arguments': 'c18_parsers:parse_complex', 'parse_goals.rs::parse_subgoal': 'c18_parsers:parse_subgoal',
                 '*': 'c18_parsers'},
     'not_covered': [
-        'TRUSTED, not yet under proof (external_body stubs with the contract "returns, does not panic"): generate_goal and the tokenizer behind it (tokenize, group_tokens, group_and_tokens, group_or_tokens, token_tree_to_goal), make_query',
+        'TRUSTED: make_query (its renaming is proved in unit rename for well-formed terms; that parsed terms are well formed is not proved)',
+        'ASSUMED clause of tokenize (used by generate_goal): the text cut right after an opening parenthesis, and the first text cut, is not itself a separator or parenthesis symbol, '
+        'so that every token group starts with a subgoal or a nested group (argument in DESIGN.md 8.8; exercised by the bounded oracle on every run). Everything else about the tokenizer is proved, '
+        'including that the grouping functions only build trees that token_tree_to_goal accepts (its three panics are unreachable)',
+        'usize is 64 bits (global size_of usize == 8) in the token units',
         'termination of the mutual recursion (parse_term -> make_term -> parse_complex/parse_function/parse_linked_list -> parse_arguments -> make_term; parse_subgoal <-> parse_operator_goal): each call is on a strictly shorter text, but that measure is not machine-checked (exec_allows_no_decreases_clause); every loop inside the proved functions has a decreases clause',
         'texts of 2^31 characters or more (bracket depths and positions are kept in i32)',
     ],
